@@ -799,7 +799,8 @@ class Parser(ExprParser):
                 ns = self.namespace.unqualified_lookup(self.token.value)
                 if ns:
                     ns, ns_name = self.nested_namespace(ns)
-                    # XXX - make sure ns is a ast.ClassNode (and not a namespace)
+                    if getattr(ns, "nodename", None) != "class":
+                        self.error_msg("'{}' is not a class", ns_name)
                     node.baseclass.append((access_specifier, ns_name, ns))
                 else:
                     self.error_msg("unknown class '{}'", self.token.value)
